@@ -80,4 +80,13 @@ VARIANTS = [
     dict(name="twin: unrelated helper call before the resets", kind="twin",
          edits=[("cotengra/pathfinders/path_compressed_greedy.py", "    def get_ssa_path(self, inputs, output, size_dict):\n        self.candidates = []",
                  "    def _note(self, inputs):\n        return len(inputs)\n\n    def get_ssa_path(self, inputs, output, size_dict):\n        n_in = self._note(inputs)\n        self.candidates = []")]),
+    dict(name="seed C20_7: tracker clamps its cap to the auto value", kind="break", file="cotengra/scoring.py",
+         old="        else:\n            self.chi = chi\n\n        # local params", new="        else:\n            self.chi = min(chi, max(hg.size_dict.values()) ** 2)\n\n        # local params",
+         expect=("C20-SAMECAP", "CompressedStatsTracker")),
+    dict(name="twin: cap kept through a local", kind="twin", file="cotengra/scoring.py",
+         old="        else:\n            self.chi = chi\n\n        # local params", new="        else:\n            cap = chi\n            self.chi = cap\n\n        # local params"),
+    dict(name="seed C20_8: parent position advanced before the bisection", kind="break", file="cotengra/core.py",
+         old="                            ci = bisect(scores[:i], score)\n                            scores.insert(ci, score)\n                            queue.insert(ci, child)\n                            # parent moves extra place to right\n                            i += 1\n",
+         new="                            i += 1\n                            ci = bisect(scores, score, 0, i)\n                            scores.insert(ci, score)\n                            queue.insert(ci, child)\n",
+         expect=("C20-TOPO", "_traverse_ordered")),
 ]
